@@ -275,17 +275,27 @@ Definition scan_string (e : env) (s : src) : res string :=
   | SNull => Err
   end.
 
-(** The final [switch s.Kind] of Scanner.Scan. *)
-Definition kind_scan (e : env) (b : base) (s : src) : res gval :=
+(** Repair C13-fix-1 (F24): the binlog decoder hands back the signed integer of the column's width also
+    for UNSIGNED columns; an unsigned target reinterprets int8/int16/int32 sources at their own width. *)
+Definition unsigned_at_own_width (b : base) (s : src) : src :=
+  match b, s with
+  | BUint _, SInt w z => if w <? 64 then SInt 64 (wrap_u w z) else s
+  | _, _ => s
+  end.
+
+(** The final [switch s.Kind] of Scanner.Scan; [fix24 = false] is the code before C13-fix-1. *)
+Definition kind_scan_gen (fix24 : bool) (e : env) (b : base) (s : src) : res gval :=
   match b with
   | BBool => rbind (scan_bool s) (fun x => Ok (GBool x))
   | BInt w => rbind (scan_int64 e s) (fun z => Ok (GInt (wrap_s w z)))
-  | BUint w => rbind (scan_int64 e s) (fun z => Ok (GInt (wrap_u w z)))
+  | BUint w => rbind (scan_int64 e (if fix24 then unsigned_at_own_width b s else s)) (fun z => Ok (GInt (wrap_u w z)))
   | BF64 => rbind (scan_float e s) (fun f => Ok (GFloat f))
   | BF32 => rbind (scan_float e s) (fun f => Ok (GFloat (round32 e f)))
   | BStr => rbind (scan_string e s) (fun x => Ok (GStr x))
   | BBytes | BTime | BCustom _ => Err
   end.
+
+Definition kind_scan := kind_scan_gen true.
 
 Definition as_bytes (s : src) : option string :=
   match s with SBytes x | SStr x => Some x | _ => None end.
